@@ -291,10 +291,112 @@ def enum_advisories(seed):
             "cases": cases, "failures": fails}
 
 
+def _in_range(op, base, slot, glob, p):
+    from pkgcore.ebuild.cpv import VersionedCPV, ver_cmp
+    b = VersionedCPV(f"cat/pkg-{base}")
+    c = ver_cmp(p.version, p.revision, b.version, b.revision)
+    if glob:
+        fv, pre = p.fullver, b.fullver
+        m = fv == pre or (fv.startswith(pre) and not (fv[len(pre)].isdigit() and pre[-1].isdigit()))
+    elif op[0] == "r":
+        same = ver_cmp(p.version, None, b.version, None) == 0
+        rp, rb = int(str(p.revision or 0) or 0), int(str(b.revision or 0) or 0)
+        m = same and {"rlt": rp < rb, "rle": rp <= rb, "rge": rp >= rb, "rgt": rp > rb}[op]
+    else:
+        m = {"lt": c < 0, "le": c <= 0, "eq": c == 0, "ge": c >= 0, "gt": c > 0}[op]
+    return m and (not slot or p.slot == slot)
+
+
+def enum_repo_scan(seed):
+    """directories of several advisories (several package entries, several ranges each) scanned against a repository with the real
+    find_vulnerable_repo_pkgs (plain and grouped) and SecurityUpgrades.__iter__, against the GLSA reading of the statement"""
+    import os
+    import random
+    import tempfile
+    from pkgcore.pkgsets import glsa as G
+    from pkgcore.repository.util import SimpleTree
+    from pkgcore.test.misc import FakePkg
+    thorough = os.environ.get("VERIF_TIER") == "thorough"
+    rnd = random.Random(seed * 1009 + 45)
+    names = ["dev-util/diffball", "dev-util/other"]
+    vers = ["0.9", "1.0", "1.0-r1", "1.0-r2", "1.1", "2.0"]
+    kws = {"0.9": ("x86",), "1.0": ("amd64",), "1.0-r1": ("x86", "ppc"), "1.0-r2": ("ppc",), "1.1": ("amd64", "x86"), "2.0": ("ppc",)}
+    slots = {"0.9": "0", "1.0": "0", "1.0-r1": "1", "1.0-r2": "0", "1.1": "1", "2.0": "1"}
+
+    def klass(cat, pkg, ver):
+        return FakePkg(f"{cat}/{pkg}-{ver}", slot=slots[ver], keywords=kws[ver])
+    repo = SimpleTree({"dev-util": {"diffball": list(vers), "other": list(vers[1:4]), "third": ["1.0"]}}, pkg_klass=klass)
+    pkgs = list(repo)
+    plain_ops = [o for o in OPS]
+    cases, fails = 0, []
+
+    def rng():
+        op = rnd.choice(plain_ops)
+        base = rnd.choice(("1.0", "1.0-r1", "1.1"))
+        if op == "rlt" and "-r" not in base:
+            base = "1.0-r1"
+        return op, base, rnd.choice(("", "", "1"))
+    with tempfile.TemporaryDirectory(dir=os.environ.get("PYVC_SCRATCH", "/var/tmp")) as d:
+        for round_ in range(400 if thorough else 120):
+            for f in os.listdir(d):
+                os.unlink(os.path.join(d, f))
+            entries = []  # (name, arch, vulnerable ranges, unaffected ranges)
+            for i in range(rnd.choice((1, 2, 3))):
+                nodes = []
+                for name in rnd.sample(names, rnd.choice((1, 2))):
+                    e = (name, rnd.choice(("*", "x86 amd64", "ppc")), [rng() for _ in range(rnd.choice((1, 2)))], [rng() for _ in range(rnd.choice((0, 0, 1)))])
+                    entries.append(e)
+                    body = "".join(f'<vulnerable range="{o}"' + (f' slot="{s}"' if s else "") + f">{b}</vulnerable>" for o, b, s in e[2]) + \
+                        "".join(f'<unaffected range="{o}"' + (f' slot="{s}"' if s else "") + f">{b}</unaffected>" for o, b, s in e[3])
+                    nodes.append(f'<package name="{name}" auto="yes" arch="{e[1]}">{body}</package>')
+                with open(os.path.join(d, f"glsa-200001-{i + 10}.xml"), "w") as fh:
+                    fh.write('<?xml version="1.0" encoding="UTF-8"?>\n<glsa id="200001-%d"><title>t</title><affected>%s</affected></glsa>' % (i + 10, "".join(nodes)))
+
+            def affected(p):
+                return any(p.key == name and any(_in_range(o, b, s, False, p) for o, b, s in vul) and not any(_in_range(o, b, s, False, p) for o, b, s in unaff)
+                           and (arch == "*" or bool(set(arch.split()) & set(p.keywords))) for name, arch, vul, unaff in entries)
+            want = sorted(p.cpvstr for p in pkgs if affected(p))
+            src = G.GlsaDirSet(d)
+            model = {"advisories": [[n, a, v, u] for n, a, v, u in entries]}
+            for grouped in (False, True):
+                cases += 1
+                got, keys, empties = set(), [], 0
+                for restrict, matches in G.find_vulnerable_repo_pkgs(src, repo, grouped=grouped):
+                    ms = list(matches)
+                    empties += not ms
+                    keys.append(restrict.key)
+                    got.update(m.cpvstr for m in ms)
+                bad = None
+                if sorted(got) != want:
+                    bad = f"reports {sorted(got)}, the GLSA reading gives {want}"
+                elif empties:
+                    bad = "yielded an advisory restriction without any vulnerable package"
+                elif grouped and len(keys) != len(set(keys)):
+                    bad = f"grouped scan yielded a package name twice: {keys}"
+                if bad and len(fails) < 4:
+                    fails.append({"model": dict(model, grouped=grouped), "detail": f"find_vulnerable_repo_pkgs(grouped={grouped}) over {model['advisories']}: {bad}"})
+            su = object.__new__(G.SecurityUpgrades)
+            su.glsa_src, su.vdb, su.arch = src, repo, None
+            cases += 1
+            ups = list(su)
+            vul_keys = {p.key for p in pkgs if affected(p)}
+            for p in pkgs:
+                g_ = any(r.match(p) for r in ups)
+                w_ = p.key in vul_keys and not affected(p)
+                if g_ != w_ and len(fails) < 4:
+                    fails.append({"model": dict(model, package=p.cpvstr), "detail": f"SecurityUpgrades over {model['advisories']}: {p.cpvstr} is {'offered' if g_ else 'not offered'} as an upgrade; "
+                                                                                    f"it is {'affected' if affected(p) else 'not affected'} and its name is {'among' if p.key in vul_keys else 'not among'} the vulnerable ones"})
+    return {"name": "C45.repository_scan.bounded_enumeration",
+            "bound": f"{400 if thorough else 120} seeded advisory directories (1..3 files x 1..2 package entries x 1..2 vulnerable and 0..1 unaffected ranges over the nine operators, slots, three arch specs) "
+                     "scanned against a 10-package repository: find_vulnerable_repo_pkgs plain and grouped, SecurityUpgrades.__iter__", "cases": cases, "failures": fails}
+
+
 def tasks():
     return [
         Task("C45.generate_restrict_from_range", t_range, [(FILE, "GlsaDirSet.generate_restrict_from_range")], enumerate=enum_advisories),
         Task("C45.generate_intersects_from_pkg_node", t_node, [(FILE, "GlsaDirSet.generate_intersects_from_pkg_node")]),
+        Task("C45.repository_scan", None, [(FILE, "find_vulnerable_repo_pkgs"), (FILE, "GlsaDirSet.pkg_grouped_iter"), (FILE, "GlsaDirSet.iter_vulnerabilities"), (FILE, "SecurityUpgrades.__iter__")],
+             enumerate=enum_repo_scan),
     ]
 
 
